@@ -161,7 +161,8 @@ class Eval:
                     pass
             if n.get("expr") is not None:
                 return self.ev(n["expr"], loc)
-            return ("val", "()")
+            # a block evaluated for its effects: it is identified by what it does
+            return ("val", "{%s}" % H.render(n)) if n.get("stmts") else ("val", "()")
         if k == "ret":
             raise _Return(self.ev(n["e"], loc) if n.get("e") is not None else ("val", "()"))
         if k == "un" and n.get("op") == "!":
